@@ -6,7 +6,7 @@
 \* one-element list holding the compound to its left (whose rel_type is the combinator between them),
 \* and so on right to left; :has() arguments are chained left to right with ":"-prefixed rel_types under
 \* an empty anchor selector; != nests under a negated list; keyword structural pseudo-classes become
-\* SelectorNth records; a missing type selector is an implied * only outside pseudo-classes.
+\* SelectorNth records; a missing type selector is an implied * only outside pseudo-classes (in every compound of a top-level complex selector).
 \* T-AlgoEqDecl (checked by the MC_C01 / MC_C02 configurations): for every enumerated document,
 \*   AlgoSelect(Compile(s)) = CssDecl!Matches(s).
 EXTENDS CssDecl
@@ -65,7 +65,7 @@ CompileCompound(comp, isPseudo, base) ==
 CompileChain(cx, n, isPseudo) ==
     LET me == CompileCompound(cx.cs[n], isPseudo, BlankSel) IN
     IF n = 1 \/ IsNull(me) THEN me
-    ELSE LET left == CompileChain(cx, n - 1, TRUE) IN           \* only the subject gets the implied *
+    ELSE LET left == CompileChain(cx, n - 1, isPseudo) IN       \* every top-level compound gets the implied * (since F12b; before, only the subject)
          [me EXCEPT !.relation = [selectors |-> <<IF IsNull(left) THEN left ELSE [left EXCEPT !.rel_type = cx.cb[n - 1]]>>,
                                   is_not |-> FALSE, is_html |-> FALSE]]
 CompileCx(cx, isPseudo) == CompileChain(cx, Len(cx.cs), isPseudo)
